@@ -13,6 +13,7 @@ from .rules import matrixarray as RM
 from .rules import tables as RT
 from .rules import density as RDn
 from .rules import omega_tab as RO
+from .rules import calculate as RCa
 
 PROPS = {}
 
@@ -144,6 +145,33 @@ prop('C12',
      'calculate must write nothing; PairTable.exportToMatrixArray refuses unequal lengths before building the array.',
      'np.loadtxt / np.allclose behaviour (trusted); asserts under python -O (A3); rejection of a wrong-length one-column '
      'file in a rank-1 system happens in numpy shape checking, not in pyPRISM code.', trusted=('A1', 'A2', 'A3'))
+
+
+prop('C05',
+     [('R00.dyn', RG.rule_no_dynamic), ('R05.g', RCa.rule_pair_correlation), ('R05.w', RCa.rule_pmf),
+      ('R05.s', RCa.rule_structure_factor), ('R05.b2', RCa.rule_second_virial), ('R05.x', RCa.rule_chi),
+      ('R05.l', RCa.rule_spinodal), ('R05.p', RCa.rule_solvation), ('R05.sym', RCa.rule_matrix_symmetry)],
+     'Static analysis of pyPRISM/calculate: each of the seven functions is abstractly interpreted on a symbolic PRISM '
+     'object (arrays as tensor symbols, pair loops executed once with symbolic type labels, MatrixArray operators '
+     'interpreted from their source) for every flag valuation; the returned term is compared with the definition in '
+     'spec/calculate.py as an identity over the reals (exact rational-function normal form; matrix products as '
+     'non-commutative word series; linear transforms normalised); chi is decided reference-free (linearity, weight '
+     'ratios 1/R:R:-2, equal-volume limit); pair coverage (every i<j / every ordered pair), label-swap symmetry, '
+     'symmetric result tables, the 3-point quadratic extrapolation idiom.',
+     'S = (I - Omega C)^-1 Omega on self-consistent objects (a theorem about solutions of the PRISM equation, no code '
+     'computes it); floating-point error; np.polyfit numerics (trusted).')
+
+prop('C06',
+     [('R00.dyn', RG.rule_no_dynamic), ('R06.f', RCa.rule_frame_and_typestate)],
+     'Static analysis: every calculate function is abstractly interpreted for every flag valuation and every one of the '
+     '8 combinations of spaces (Real/Fourier) the three stored arrays can be in, on a heap with array identity and '
+     'views: (frame) the only persistent writes are the sanctioned in-place space transforms and brand-new cache '
+     'attributes nobody reads; the Fourier content of totalCorr/directCorr/omega after the call equals the content '
+     'before; (typestate) no combination raises and all give the same canonical result; (freshness) results share no '
+     'memory with the object. Since each call preserves content and its result depends on content only, every finite '
+     'call history gives the results of a fresh object.',
+     'rounding introduced by repeated forward/backward transforms (C07 bounds it to rounding error); the numerical '
+     'effect of re-solving.')
 
 
 def run(pid, tier, repo, seed=0, replay=None, write=True):
